@@ -64,8 +64,8 @@ class Prog:
     def round(self, x, n, z):
         self.ops.append({'op': 'Round', 'x': x, 'n': n, 'z': z})
 
-    def alloc(self, x, rs, disp):
-        self.ops.append({'op': 'Alloc', 'x': x, 'rs': list(rs), 'disp': bool(disp)})
+    def alloc(self, x, rs, disp, zs=()):
+        self.ops.append({'op': 'Alloc', 'x': x, 'rs': list(rs), 'disp': bool(disp), 'zs': list(zs)})
 
     def sum(self, rs, z):
         self.ops.append({'op': 'Sum', 'rs': list(rs), 'z': z})
